@@ -12,7 +12,8 @@ RULE = ("differential: one inbound byte stream built from a simulated multi-node
         "reference = asyncio serial gateway, one line per chunk; variants = drawn flavour (threaded serial / threaded TCP with 120-byte "
         "reads / asyncio serial / asyncio TCP), drawn segmentation (1-byte chunks, random cuts incl. inside a multi-byte character and "
         "between CR and LF, everything in one chunk, 120-byte blocks) and drawn reader/pump schedule (serial, random-walk or PCT "
-        "pre-emption). Time-reply payloads and the TCP watchdog's own probes are normalised away. Oracle: every variant ends with the "
+        "pre-emption; 20% of the threaded variants are TAIL RACES: the last two lines arrive back to back with one or two forced "
+        "switches inside the poll loop counted from the arrival of the first). Time-reply payloads and the TCP watchdog's own probes are normalised away. Oracle: every variant ends with the "
         "same node/child/value tree and the same ordered list of emitted commands as the reference. non-trivial = the stream has a "
         "split multi-byte character or CR|LF split, a wake-up burst, and >=2 lines delivered in one chunk to a threaded flavour; "
         "distinct = distinct run digests")
